@@ -6,6 +6,7 @@ CONSTANTS
   MaxUid = 4
   MaxCode = 3
   NFlagSets = 2
+  SyncLit = FALSE
   Kinds = {"NOOP", "LOGIN", "SELECT", "UNSELECT", "STATUS", "LIST", "SEARCH", "ESEARCH", "FETCH", "EXPUNGE", "LOGOUT"}
   Greetings = {"OK"}
   SimDepth = 60
